@@ -236,6 +236,59 @@ theorem step_wf (m : Machine) (op : Op) (hm : m.WFm) : (m.step op).WFm := by
       rw [assignPField_frames]
       exact hm p (List.mem_of_getElem? hp)
 
+  | classify i intf target =>
+    simp only [Machine.step]
+    cases hp : m.paths[i]? with
+    | none => exact hm
+    | some p => exact hm
+  | repl i k j l =>
+    simp only [Machine.step]
+    cases hp : m.paths[i]? with
+    | none => exact hm
+    | some p =>
+      cases hq : m.paths[j]? with
+      | none => exact hm
+      | some q =>
+        simp only
+        cases hr : q.frames[l]? with
+        | none => exact hm
+        | some r =>
+          simp only
+          split
+          · simp only [Machine.say]
+            apply wfm_set _ _ _ _ hm
+            intro x hx
+            rcases List.mem_or_eq_of_mem_set hx with h1 | rfl
+            · exact hm p (List.mem_of_getElem? hp) x h1
+            · exact hm q (List.mem_of_getElem? hq) x (List.mem_of_getElem? hr)
+          · exact hm
+  | ext i j =>
+    simp only [Machine.step]
+    cases hp : m.paths[i]? with
+    | none => exact hm
+    | some p =>
+      cases hq : m.paths[j]? with
+      | none => exact hm
+      | some q =>
+        simp only [Machine.say]
+        apply wfm_set _ _ _ _ hm
+        intro x hx
+        rcases List.mem_append.1 hx with h1 | h1
+        · exact hm p (List.mem_of_getElem? hp) x (List.dropLast_subset _ h1)
+        · exact hm q (List.mem_of_getElem? hq) x h1
+  | del i k =>
+    simp only [Machine.step]
+    cases hp : m.paths[i]? with
+    | none => exact hm
+    | some p =>
+      simp only
+      split
+      · simp only [Machine.say]
+        apply wfm_set _ _ _ _ hm
+        intro x hx
+        exact hm p (List.mem_of_getElem? hp) x (List.mem_of_mem_eraseIdx hx)
+      · exact hm
+
 theorem run_wf (ops : List Op) : ∀ (m : Machine), m.WFm → (m.run ops).WFm := by
   induction ops with
   | nil => intro m hm; exact hm
